@@ -553,8 +553,19 @@ impl Td0 {
     }
     /// This function is used if a CP/M block is requested.
     /// We can only comply if the user tracks are laid out homogeneously.
+    /// sectors per track and sector shift of track `off`, where the blocks of a file system start;
+    /// the track has to be there and hold at least one sector
+    fn layout_of_track(&self,off: u16) -> Result<(usize,u8),DYNERR> {
+        match self.tracks.get(off as usize) {
+            Some(trk) if trk.sectors.len()>0 => Ok((trk.sectors.len(),trk.sectors[0].header.sector_shift)),
+            _ => {
+                log::debug!("track {} is missing or empty",off);
+                Err(Box::new(super::Error::TrackCountMismatch))
+            }
+        }
+    }
     fn check_user_area_up_to_cyl(&self,cyl: usize,off: u16) -> STDRESULT {
-        let sector_count = self.tracks[off as usize].sectors.len();
+        let (sector_count,_) = self.layout_of_track(off)?;
         let mut sector_shift: Option<u8> = None;
         if cyl*self.heads >= self.tracks.len() {
             log::error!("track {} was requested, max is {}",cyl*self.heads,self.tracks.len()-1);
@@ -637,15 +648,14 @@ impl img::DiskImage for Td0 {
         trace!("reading {}",addr);
         match addr {
             Block::CPM((_block,_bsh,off)) => {
-                let secs_per_track = self.tracks[off as usize].sectors.len();
-                let sector_shift = self.tracks[off as usize].sectors[0].header.sector_shift;
+                let (secs_per_track,sector_shift) = self.layout_of_track(off)?;
                 let mut ans: Vec<u8> = Vec::new();
                 let deblocked_ts_list = addr.get_lsecs((secs_per_track << sector_shift) as usize);
                 let chs_list = skew::cpm_blocking(deblocked_ts_list, sector_shift,self.heads)?;
                 for [cyl,head,lsec] in chs_list {
                     self.check_user_area_up_to_cyl(cyl, off)?;
                     let skew_table = self.get_skew(head)?;
-                    match self.read_sector(cyl,head,skew_table[lsec-1] as usize) {
+                    match self.read_sector(cyl,head,*skew_table.get(lsec-1).ok_or(super::Error::SectorAccess)? as usize) {
                         Ok(mut slice) => {
                             ans.append(&mut slice);
                         },
@@ -655,7 +665,7 @@ impl img::DiskImage for Td0 {
                 Ok(ans)
             },
             Block::FAT((_sec1,_secs)) => {
-                let secs_per_track = self.tracks[0].sectors.len();
+                let (secs_per_track,_) = self.layout_of_track(0)?;
                 let mut ans: Vec<u8> = Vec::new();
                 let deblocked_ts_list = addr.get_lsecs(secs_per_track);
                 let chs_list = skew::fat_blocking(deblocked_ts_list,self.heads)?;
@@ -677,8 +687,7 @@ impl img::DiskImage for Td0 {
         trace!("writing {}",addr);
         match addr {
             Block::CPM((_block,_bsh,off)) => {
-                let secs_per_track = self.tracks[off as usize].sectors.len();
-                let sector_shift = self.tracks[off as usize].sectors[0].header.sector_shift;
+                let (secs_per_track,sector_shift) = self.layout_of_track(off)?;
                 let deblocked_ts_list = addr.get_lsecs((secs_per_track << sector_shift) as usize);
                 let chs_list = skew::cpm_blocking(deblocked_ts_list, sector_shift,self.heads)?;
                 let mut src_offset = 0;
@@ -688,12 +697,12 @@ impl img::DiskImage for Td0 {
                 for [cyl,head,lsec] in &chs_list {
                     self.check_user_area_up_to_cyl(*cyl, off)?;
                     let skew_table = self.get_skew(*head)?;
-                    self.read_sector(*cyl,*head,skew_table[*lsec-1] as usize)?;
+                    self.read_sector(*cyl,*head,*skew_table.get(*lsec-1).ok_or(super::Error::SectorAccess)? as usize)?;
                 }
                 for [cyl,head,lsec] in chs_list {
                     self.check_user_area_up_to_cyl(cyl, off)?;
                     let skew_table = self.get_skew(head)?;
-                    match self.write_sector(cyl,head,skew_table[lsec-1] as usize,&padded[src_offset..src_offset+psec_size].to_vec()) {
+                    match self.write_sector(cyl,head,*skew_table.get(lsec-1).ok_or(super::Error::SectorAccess)? as usize,&padded[src_offset..src_offset+psec_size].to_vec()) {
                         Ok(_) => src_offset += SECTOR_SIZE_BASE << sector_shift,
                         Err(e) => return Err(e)
                     }
@@ -702,7 +711,7 @@ impl img::DiskImage for Td0 {
             },
             Block::FAT((_sec1,_secs)) => {
                 // TODO: do we need to handle variable sectors per track
-                let secs_per_track = self.tracks[0].sectors.len();
+                let (secs_per_track,_) = self.layout_of_track(0)?;
                 let sector_shift = self.tracks[0].sectors[0].header.sector_shift;
                 let sec_size = 128 << sector_shift;
                 let deblocked_ts_list = addr.get_lsecs(secs_per_track);
